@@ -1,9 +1,31 @@
-// Read-only views of the library's private state (compiled with -fno-access-control, which changes
-// no semantics): active ids, history memory, queues, processing flag.  One API for the three families.
+// Read-only views of the library's state: active ids, history memory, queues, processing flag.  One API for the
+// three families.  Public accessors are used wherever the library offers them (current_state(), get_message_queue(),
+// get_deferred_queue(), get_active_state_ids(), get_event_pool()); private members (the TU is compiled with
+// -fno-access-control, which changes no semantics) are reached through detection so that a renamed or removed private
+// member degrades the state description ("?" in the canonical state: fewer states are told apart, nothing is
+// misjudged) instead of breaking the build.  `vf::caps()` reports what was found.
 #pragma once
 #include <sstream>
+#include <type_traits>
+
+#define VF_DETECT(NAME, EXPR) \
+    template <class T, class = void> struct NAME : std::false_type {}; \
+    template <class T> struct NAME<T, std::void_t<decltype(EXPR)>> : std::true_type {};
 
 namespace vf {
+inline std::string& caps_missing() { static std::string s; return s; }
+inline void cap_missing(const char* what) { if (caps_missing().find(what) == std::string::npos) caps_missing() += std::string(what) + " "; }
+VF_DETECT(has_evproc, std::declval<T&>().m_event_processing)
+VF_DETECT(has_running, std::declval<T&>().m_running)
+VF_DETECT(has_history, std::declval<T&>().m_history)
+VF_DETECT(has_initialStates, std::declval<T&>().m_initialStates)
+VF_DETECT(has_currentStates, std::declval<T&>().m_currentStates)
+VF_DETECT(has_last_active, std::declval<T&>().m_last_active_state_ids)
+VF_DETECT(has_cur_seq, std::declval<T&>().m_deferred_events_queue.m_cur_seq)
+template <class SM> inline std::string evproc_str(SM& m) {
+    if constexpr (has_evproc<SM>::value) return std::to_string((int)m.m_event_processing);
+    else { cap_missing("event_processing_flag"); return "0"; }
+}
 
 template <class T> inline std::string join_ints(const T* p, int n) {
     std::string r;
@@ -12,42 +34,63 @@ template <class T> inline std::string join_ints(const T* p, int n) {
 }
 
 #if VF_FAMILY != 3
+#if VF_FAMILY == 1
+template <class SM> struct has_deferral : boost::msm::back::has_fsm_deferred_events<SM>::type {};
+#else
+template <class SM> struct has_deferral : boost::msm::back11::has_fsm_deferred_events<SM>::type {};
+#endif
 // ---- history memory ----
-template <int N> inline std::string hist_str(const boost::msm::back::NoHistoryImpl<N>& h) { return "n" + join_ints(h.m_initialStates, N); }
-template <int N> inline std::string hist_str(const boost::msm::back::AlwaysHistoryImpl<N>& h) { return "a" + join_ints(h.m_initialStates, N); }
-template <class Ev, int N> inline std::string hist_str(const boost::msm::back::ShallowHistoryImpl<Ev, N>& h) {
-    return "s" + join_ints(h.m_initialStates, N) + "/" + join_ints(h.m_currentStates, N);
-}
-// ---- deferred queue (present only when the machine has deferring states) ----
-template <class H> inline auto defq_str(const H& h, int) -> decltype(h.m_cur_seq, std::string()) {
-    std::string r = "[";
-    for (auto it = h.m_deferred_events_queue.begin(); it != h.m_deferred_events_queue.end(); ++it) {
-        if (r.size() > 1) r += ',';
-        r += std::to_string((int)(signed char)(it->second - h.m_cur_seq));
-    }
-    r += "]";
+template <class H> inline std::string hist_members(const H& h, int n, const char* tag) {
+    std::string r = tag;
+    if constexpr (has_initialStates<H>::value) r += join_ints(h.m_initialStates, n); else { cap_missing("history_memory"); r += "?"; }
+    if constexpr (has_currentStates<H>::value) r += "/" + join_ints(h.m_currentStates, n);
     return r;
 }
-template <class H> inline std::string defq_str(const H&, long) { return "-"; }
-template <class H> inline auto defq_seq(const H& h, int) -> decltype(h.m_cur_seq, 0) { return (int)h.m_cur_seq; }
-template <class H> inline int defq_seq(const H&, long) { return 0; }
+template <int N> inline std::string hist_str(const boost::msm::back::NoHistoryImpl<N>& h) { return hist_members(h, N, "n"); }
+template <int N> inline std::string hist_str(const boost::msm::back::AlwaysHistoryImpl<N>& h) { return hist_members(h, N, "a"); }
+template <class Ev, int N> inline std::string hist_str(const boost::msm::back::ShallowHistoryImpl<Ev, N>& h) {
+    if constexpr (!has_currentStates<boost::msm::back::ShallowHistoryImpl<Ev, N>>::value) cap_missing("history_memory");
+    return hist_members(h, N, "s");
+}
+// ---- deferred queue (present only when the machine has deferring states): public accessor; the current sequence
+// number is private -- without it the numbers are given relative to the newest entry
+template <class SM> inline int defq_seq(SM& m) {
+    if constexpr (has_deferral<SM>::value) {
+        if constexpr (has_cur_seq<SM>::value) return (int)m.m_deferred_events_queue.m_cur_seq;
+        else {
+            cap_missing("deferral_sequence_counter");
+            int mx = 0; bool any = false;
+            for (auto it = m.get_deferred_queue().begin(); it != m.get_deferred_queue().end(); ++it) { if (!any || (signed char)(it->second - mx) > 0) mx = it->second; any = true; }
+            return mx;
+        }
+    } else return 0;
+}
+template <class SM> inline std::string defq_str(SM& m) {
+    if constexpr (has_deferral<SM>::value) {
+        std::string r = "["; int cur = defq_seq(m);
+        for (auto it = m.get_deferred_queue().begin(); it != m.get_deferred_queue().end(); ++it) {
+            if (r.size() > 1) r += ',';
+            r += std::to_string((int)(signed char)(it->second - cur));
+        }
+        return r + "]";
+    } else return "-";
+}
+template <class SM> inline size_t defq_size(SM& m) { if constexpr (has_deferral<SM>::value) return m.get_deferred_queue().size(); else return 0; }
 
 template <class SM> inline std::string snap_machine(SM& m, int mid) {
     std::string s = "M" + std::to_string(mid);
-    s += ":a=" + join_ints(m.m_states, SM::nr_regions::value);
-    s += ":h=" + hist_str(m.m_history);
-    s += ":p=" + std::to_string((int)m.m_event_processing);
-    s += ":q=" + std::to_string((int)m.m_events_queue.m_events_queue.size());
-    s += ":d=" + defq_str(m.m_deferred_events_queue, 0);
+    s += ":a=" + join_ints(m.current_state(), SM::nr_regions::value);
+    if constexpr (has_history<SM>::value) s += ":h=" + hist_str(m.m_history); else { cap_missing("history_memory"); s += ":h=?"; }
+    s += ":p=" + evproc_str(m);
+    s += ":q=" + std::to_string((int)m.get_message_queue_size());
+    s += ":d=" + defq_str(m);
     return s;
 }
-template <class SM> inline int raw_seq(SM& m) { return defq_seq(m.m_deferred_events_queue, 0); }
-template <class SM> inline int own_queue_size(SM& m) { return (int)m.m_events_queue.m_events_queue.size(); }
-template <class H> inline auto defq_cap(H& h, int n, int) -> decltype(h.m_cur_seq, void()) { h.m_deferred_events_queue.set_capacity(n); }
-template <class H> inline void defq_cap(H&, int, long) {}
+template <class SM> inline int raw_seq(SM& m) { return defq_seq(m); }
+template <class SM> inline int own_queue_size(SM& m) { return (int)m.get_message_queue_size(); }
 template <class SM> inline void set_capacity(SM& m, int n) {
     m.get_message_queue().set_capacity(n);
-    defq_cap(m.m_deferred_events_queue, n, 0);
+    if constexpr (has_deferral<SM>::value) m.get_deferred_queue().set_capacity(n);
 }
 
 // ---- actual content and order of the library's queues (back / back11): the queued boost::function objects
@@ -67,25 +110,24 @@ template <class SM, class E, class Fn> inline bool peek_bound(const Fn& f, int& 
     return false;
 }
 struct QItem { int eid; int serial; bool foreign; };
-template <class SM, class E> inline void scan_queues(SM& m, std::vector<QItem>& mq, std::vector<QItem>& dq, std::vector<bool>& mq_done, std::vector<bool>& dq_done, long) {
+template <class SM, class E> inline void scan_queues(SM& m, std::vector<QItem>& mq, std::vector<bool>& mq_done) {
     size_t i = 0;
-    for (auto it = m.m_events_queue.m_events_queue.begin(); it != m.m_events_queue.m_events_queue.end(); ++it, ++i) {
+    for (auto it = m.get_message_queue().begin(); it != m.get_message_queue().end(); ++it, ++i) {
         if (mq_done[i]) continue;
         int eid, ser; const void* b;
         if (peek_bound<SM, E>(*it, eid, ser, b)) { mq[i] = QItem{eid, ser, b != (const void*)&m}; mq_done[i] = true; }
     }
 }
-template <class SM, class E, class H> inline auto scan_defq(SM& m, H& h, std::vector<QItem>& dq, std::vector<bool>& dq_done, int) -> decltype(h.m_cur_seq, void()) {
-    size_t i = 0;
-    for (auto it = h.m_deferred_events_queue.begin(); it != h.m_deferred_events_queue.end(); ++it, ++i) {
-        if (dq_done[i]) continue;
-        int eid, ser; const void* b;
-        if (peek_bound<SM, E>(it->first, eid, ser, b)) { dq[i] = QItem{eid, ser, b != (const void*)&m}; dq_done[i] = true; }
+template <class SM, class E> inline void scan_defq(SM& m, std::vector<QItem>& dq, std::vector<bool>& dq_done) {
+    if constexpr (has_deferral<SM>::value) {
+        size_t i = 0;
+        for (auto it = m.get_deferred_queue().begin(); it != m.get_deferred_queue().end(); ++it, ++i) {
+            if (dq_done[i]) continue;
+            int eid, ser; const void* b;
+            if (peek_bound<SM, E>(it->first, eid, ser, b)) { dq[i] = QItem{eid, ser, b != (const void*)&m}; dq_done[i] = true; }
+        }
     }
 }
-template <class SM, class E, class H> inline void scan_defq(SM&, H&, std::vector<QItem>&, std::vector<bool>&, long) {}
-template <class H> inline auto defq_size(H& h, int) -> decltype(h.m_cur_seq, size_t()) { return h.m_deferred_events_queue.size(); }
-template <class H> inline size_t defq_size(H&, long) { return 0; }
 
 template <class SM> inline std::string visit_ids(SM& m) {
     Visitor v;
@@ -107,14 +149,16 @@ template <class SM> inline std::string byid_ids(SM& m, int nstates) {
 template <class H> inline auto hist_str_mp(const H& h, int) -> decltype(h.m_last_active_state_ids, std::string()) {
     return "l" + join_ints(h.m_last_active_state_ids.data(), (int)h.m_last_active_state_ids.size());
 }
-template <class H> inline std::string hist_str_mp(const H&, long) { return "n"; }
+// no such member: either the machine has no history (nothing to remember) or the member was renamed; an empty history
+// object holds no memory, anything else is reported as unknown
+template <class H> inline std::string hist_str_mp(const H&, long) { if (!std::is_empty<H>::value) { cap_missing("history_memory"); return "?"; } return "n"; }
 
 template <class SM> inline std::string snap_machine(SM& m, int mid) {
     std::string s = "M" + std::to_string(mid);
-    s += ":a=" + join_ints(m.m_active_state_ids.data(), (int)m.m_active_state_ids.size());
-    s += ":h=" + hist_str_mp(m.m_history, 0);
-    s += ":p=" + std::to_string((int)m.m_event_processing);
-    s += ":r=" + std::to_string((int)m.m_running);
+    s += ":a=" + join_ints(m.get_active_state_ids().data(), (int)m.get_active_state_ids().size());
+    if constexpr (has_history<SM>::value) s += ":h=" + hist_str_mp(m.m_history, 0); else { cap_missing("history_memory"); s += ":h=?"; }
+    s += ":p=" + evproc_str(m);
+    if constexpr (has_running<SM>::value) s += ":r=" + std::to_string((int)m.m_running); else { cap_missing("running_flag"); s += ":r=?"; }
     auto& pool = m.get_event_pool();
     int live = 0, marked = 0;
     for (auto& e : pool.events) { if ((*e).marked_for_deletion()) marked++; else live++; }
